@@ -1,17 +1,27 @@
-"""C06 incomplete factorisations with fill: relaxation::iluk (constructor + nested sparse_vector / nonzero / comp_indices helpers).
+"""C06 incomplete factorisations with fill: relaxation::iluk, relaxation::ilup (+ detail::symb_product), ilut::sparse_vector::move_to.
 
-  iluk_ctor          relaxation::iluk<Backend>::iluk(A, prm, bprm): STRUCTURE of L, U, D for every pattern with a stored diagonal, n <= 4,
-                     k in {0,1,2} concrete per variant: kept pattern == {(i,j) : lev(i,j) <= k}, lev = the level-of-fill recurrence
-                     computed by the harness on a dense integer table (textbook IKJ order); the level recorded with every U entry == lev
-  iluk_row_step      the BODY of the row loop of that constructor for ONE arbitrary row i and an ARBITRARY well-formed predecessor state
-                     (U rows 0..i-1 with any columns and any stored levels <= k, work vector satisfying the loop invariant): the inductive
-                     step of the same statement.  States that need n >= 5 / 6 to be reachable are covered here (seeded change C06).
-  iluk_row_values    (CANDIDATE_DEFECT_UNITS) the same step with the VALUE clause: every update into a position of the final pattern is applied.
+  iluk_ctor          relaxation::iluk<Backend>::iluk(A, prm, bprm): STRUCTURE of L, U, D for every pattern with a stored diagonal, n <= 3, k concrete per
+                     variant: kept pattern == {(i,j) : lev(i,j) <= k}, lev = the level-of-fill recurrence computed by the harness on a dense integer table
+                     (IKJ order); the level recorded with every U entry == lev; establishes the loop invariant and runs the rows in order
+  iluk_row_step      the BODY of the row loop of that constructor for ONE row i and an ARBITRARY well-formed predecessor state (U rows 0..i-1 with any
+                     columns and any stored levels <= k, work vector satisfying the loop invariant), n <= 4: the inductive step of the same statement.
+                     States that need n >= 5 / 6 to be reachable are covered here (seeded change C06: level lowered only when col < dia)
+  iluk_row_values    the same step with the VALUE clause (numeric factorisation on the final pattern).  Fails on the unchanged tree: KNOWN FINDING F12
+                     (single-pass ILU(k)); every other clause of the unit is exact.  props: C06 only
+  ilup_symb_product  relaxation::detail::symb_product: boolean product pattern, rows strictly ascending, no values
+  ilup_ctor          relaxation::ilup constructor, call level: k symbolic products A x A, (previous) x A; values of A merged into the pattern of A^(k+1);
+                     ILU(0) made once from it (k == 0: from A)
+  ilut_move_to       ilut::sparse_vector::move_to: dual threshold dropping of one row (p*l_i largest in L, p*u_i largest in U in addition to the diagonal)
 
-All members of iluk::sparse_vector (constructor initialiser list, add, next_nonzero, sort, reset), iluk::nonzero (constructor initialiser
-list, operator<) and sparse_vector::comp_indices::operator() are cut from /repo and run as C functions on a `self` struct; std::deque,
-std::vector, std::priority_queue and std::sort are constant-capacity stubs (A-vec, A-std).  Bounded units, never counted as proved.
-Native replay: replay/iluk.cpp."""
+Level rule: the code (iluk.hpp:128) and the documentation (recursive definition: ILU(k) pattern = pattern of L_{k-1} U_{k-1}) use max(lev(i,p), lev(p,j)) + 1; Saad's
+Def. 10.5 uses the sum lev(i,p) + lev(p,j) + 1.  Both agree for k <= 1 and for every n <= 4 at k = 2; from n = 5, k = 2 on the code keeps a superset of the sum-rule
+pattern (diag + (0,2),(1,4),(2,1),(3,0): (3,4) has max-level 2, sum-level 3).  The units use the MAX rule; -DLEVSUM=1 switches the harness to the sum rule (no unit
+variant uses it: spec-vs-textbook note, not a finding).
+
+All members of iluk::sparse_vector (constructor initialiser list, add, next_nonzero, sort, reset), iluk::nonzero (constructor initialiser list, operator<) and
+sparse_vector::comp_indices::operator() are cut from /repo and run as C functions on a `self` struct; std::deque, std::vector, std::priority_queue, std::sort,
+std::partition, std::nth_element are constant-capacity stubs that call the comparators / predicates cut from /repo (A-vec, A-std).  Bounded units, never counted as
+proved.  Native replay: replay/iluk.cpp."""
 import re
 from cxc import extract as X
 from cxc.extract import Cut, Rule, UF, IdxRule, UFArgs, ExtractError, match_close
@@ -587,7 +597,10 @@ void h_iluk(void)
     entry='h_iluk', mode='unwound', unwind='NMAX*NMAX+3', model='uf',
     defines={'LEVSUM': 0, 'IN': 1},
     variants=[{'NMAX': 3, 'ZMAX': 9, 'K': 1}, {'NMAX': 3, 'ZMAX': 6, 'K': 0, 'IN': 0}, {'NMAX': 3, 'ZMAX': 6, 'K': 1, 'IN': 0}],
-    bound_text='',
+    thorough_variants=[{'NMAX': 3, 'ZMAX': 9, 'K': 1}, {'NMAX': 3, 'ZMAX': 9, 'K': 0}, {'NMAX': 3, 'ZMAX': 9, 'K': 2}, {'NMAX': 3, 'ZMAX': 9, 'K': 1, 'IN': 0}, {'NMAX': 3, 'ZMAX': 9, 'K': 0, 'IN': 0}],
+    bound_text='n <= 3; k = 1: EVERY pattern with a stored diagonal (each row holds 3 stored entries in any order, duplicates where the pattern row is shorter); k = 0 and k = 1: rows strictly '
+               'ascending without duplicates, nnz <= 6 (thorough: nnz <= 9 and k = 2; n <= 4 is not run: one row of n = 4 costs about as much as the whole n = 3 matrix, see iluk_row_step); '
+               'values uninterpreted (measured 45-90 s per variant)',
     assumptions=A_ILUK, replay='iluk', timeout=300, witness=wit('A'),
     not_decided=NOT_DECIDED_ILUK)
 
@@ -848,7 +861,13 @@ STEP_DESC = ('one iteration of the ILU(k) row loop from an arbitrary well-formed
              'every other D untouched; the work vector satisfies the loop invariant again; subscripts within their arrays, top()/pop() only on a non-empty queue')
 
 iluk_row_step = step_unit('iluk_row_step', False, ['C06', 'C10'], STEP_DESC,
-                          variants=[{'NMAX': 4, 'ZMAX': 16, 'K': 2, 'N': 4, 'I': 2}, {'NMAX': 4, 'ZMAX': 16, 'K': 2, 'N': 4, 'I': 3, 'IN': 0, 'WSTALE': 1}, {'NMAX': 3, 'ZMAX': 9, 'K': 1}], thorough=None, bound='', not_decided=NOT_DECIDED_ILUK)
+                          variants=[{'NMAX': 4, 'ZMAX': 16, 'K': 2, 'N': 4, 'I': 2}, {'NMAX': 4, 'ZMAX': 16, 'K': 2, 'N': 4, 'I': 3, 'IN': 0, 'WSTALE': 1}, {'NMAX': 3, 'ZMAX': 9, 'K': 1}],
+                          thorough=[{'NMAX': 4, 'ZMAX': 16, 'K': 2, 'N': 4, 'I': 2}, {'NMAX': 4, 'ZMAX': 16, 'K': 2, 'N': 4, 'I': 3, 'IN': 0, 'WSTALE': 1}, {'NMAX': 3, 'ZMAX': 9, 'K': 1},
+                                    {'NMAX': 4, 'ZMAX': 16, 'K': 1, 'N': 4, 'I': 2}, {'NMAX': 4, 'ZMAX': 16, 'K': 1, 'N': 4, 'I': 3, 'IN': 0, 'WSTALE': 1}, {'NMAX': 4, 'ZMAX': 16, 'K': 2, 'N': 4, 'I': 1},
+                                    {'NMAX': 3, 'ZMAX': 9, 'K': 2}, {'NMAX': 3, 'ZMAX': 9, 'K': 0}],
+                          bound='n = 4, row i = 2, k = 2: every pattern row (4 stored entries in any order, duplicates), any U rows 0..1 with stored levels 0..2, any stale work vector; '
+                                'n = 4, row i = 3, k = 2: row strictly ascending, any U rows 0..2, at most one stale work-vector entry; n <= 3, any row, k = 1 with everything symbolic '
+                                '(thorough: also k = 1 at n = 4, row 1, k = 0 / 2 at n <= 3); values uninterpreted (measured 22-75 s per variant)', not_decided=NOT_DECIDED_ILUK)
 
 # KNOWN FINDING F12 (open): the value clause fails on the unchanged tree (single-pass ILU(k): an update that reaches a not-yet-existing position at a level > k is
 # discarded by sparse_vector::add; when a later pivot creates the position at a level <= k the discarded term is missing from the stored value, so (L U)_ij != a_ij on
@@ -856,7 +875,10 @@ iluk_row_step = step_unit('iluk_row_step', False, ['C06', 'C10'], STEP_DESC,
 iluk_row_values = step_unit('iluk_row_values', True, ['C06'],
                             STEP_DESC + '; VALUE clause: the stored values of the new rows and the inverted pivot are those of the numeric factorisation on the FINAL pattern (every update '
                             '-l_ip * u_pj into an admitted position is applied; uninterpreted operations in the operand order of the source)',
-                            variants=[{'NMAX': 4, 'ZMAX': 16, 'K': 1, 'N': 4, 'I': 2, 'IN': 0, 'WSTALE': 1}], thorough=None, bound='',
+                            variants=[{'NMAX': 4, 'ZMAX': 16, 'K': 1, 'N': 4, 'I': 2, 'IN': 0, 'WSTALE': 1}],
+                            thorough=[{'NMAX': 4, 'ZMAX': 16, 'K': 1, 'N': 4, 'I': 2, 'IN': 0, 'WSTALE': 1}, {'NMAX': 4, 'ZMAX': 16, 'K': 2, 'N': 4, 'I': 2, 'IN': 0, 'WSTALE': 1}, {'NMAX': 3, 'ZMAX': 9, 'K': 1, 'IN': 0, 'WSTALE': 1}],
+                            bound='n = 4, row i = 2, k = 1 (the smallest state in which an update is discarded and the position admitted later): row strictly ascending, any U rows 0..1 with stored '
+                                  'levels 0..1, at most one stale work-vector entry (thorough: k = 2; n <= 3 fully symbolic); values uninterpreted (measured 40 s)',
                             not_decided=[x for x in NOT_DECIDED_ILUK if not x.startswith('which value')] + ['exactness in floating point (values are uninterpreted: the unit pins which operands meet which operator in which order)'])
 
 # the value unit runs the SAME code under the SAME precondition as iluk_row_step, which discharges the generic safety checks (pointer, bounds, overflow, conversion);
@@ -904,7 +926,7 @@ SYMB_CUT = Cut(
         Rule(r'\b(\w+)->scan_row_sizes\(\)', r'crs_scan_row_sizes(\1)', 1, why='R-member-call'),
         Rule(r'\b(\w+)->set_nonzeros\(', r'crs_set_nonzeros_n(\1, ', 1, why='R-member-call'),
         Rule(r'std_vector<ptrdiff_t> (\w+)\(([^,;]+), ([^,;)]+)\);', r'ptrdiff_t *\1 = vec_idx_new(\2, \3); const size_t \1_n = (size_t)(\2);', 2, why='R-vec-local std::vector<ptrdiff_t> v(n, x)'),
-        Rule(r'std_sort\((?P<a>[^;]+?) \+ (?P<b>\w+), (?P=a) \+ (?P<e>\w+)\);', r'std_sort_cols(\g<a>, \g<b>, \g<e>, C->nnz);', 1, why='R-std std::sort(p + b, p + e) on a column array'),
+        Rule(r'std_sort\((?P<a>[^;]+?) \+ (?P<b>\w+), (?P=a) \+ (?P<e>\w+)\);', r'std_sort_cols(\g<a>, \g<b>, \g<e>, C->nnz);', None, why='R-std std::sort(p + b, p + e) on a column array'),
         IdxRule(r'C->col', 'C->nnz', '+'), IdxRule(r'C->ptr', 'C->nrows + 1', '+'),
         IdxRule(r'marker', 'marker_n', None),
         IdxRule(r'A\.col', 'nonzeros(A)', '+'), IdxRule(r'B\.col', 'nonzeros(B)', '+'),
@@ -1015,7 +1037,8 @@ void h_symb(void)
 """,
     entry='h_symb', mode='unwound', unwind='NMAX*NMAX+3', model='int32',
     variants=[{'NMAX': 2, 'ZMAX': 3, 'SLOTS': 0}, {'NMAX': 3, 'ZMAX': 3, 'SLOTS': 1}, {'NMAX': 2, 'ZMAX': 4, 'SLOTS': 2}],
-    bound_text='',
+    bound_text='A (n x m), B (m x k) with n, m, k <= 2, nnz <= 3 each, any pattern (unsorted, duplicates, empty rows); n, m, k <= 3 with exactly one stored entry per row; n, m, k <= 2 with two stored '
+               'entries per row (every 2 x 2 pattern without empty rows); n = 3 with two entries per row does not finish in 300 s (measured; same reach as spgemm_saad)',
     assumptions=A_RELAX + ['A-new: operator new[] never returns null; fresh arrays have nondeterministic content', 'A-callee: crs::set_size / scan_row_sizes / set_nonzeros bodies are inlined from /repo',
                            'A-std-sort: std::sort on a range of a column array is an insertion sort stub (ascending)'],
     replay='iluk', timeout=300, witness=wit('A', 'B'),
@@ -1028,12 +1051,12 @@ ilup_symb.cover_exempt = r'^canary set_size\.1$|^canary set_nonzeros_n\.[1-9]'
 ILUP_CUT = Cut(
     ILUP, r'template <class Matrix>\s*ilup\( const Matrix &A, const params &prm, const typename Backend::params &bprm\)\s*: prm\(prm\)\s*(?=\{)',
     rules=[
-        Rule(r'\bbase = std_make_shared<Base>\((?P<m>[^,;]+), prm, bprm\);', r'ILU0_MADE(self, \g<m>);', 2,
+        Rule(r'\bbase = std_make_shared<Base>\((?P<m>[^,;]+), prm, bprm\);', r'ILU0_MADE(self, \g<m>);', None,
              why='member base = make_shared<ilu0>(M, prm, bprm): ghost hook recording the matrix argument (the ILU(0) constructor is unit ilu0_structure)'),
         Rule(r'\bauto (\w+) = detail::symb_product\((?P<a>[^,;]+), (?P<b>[^,;()]+)\);', r'crs *\1 = symb_product(&(\g<a>), &(\g<b>));', 1, why='R-call detail::symb_product (contract: unit ilup_symb_product)'),
         Rule(r'(?<![\w.>])(\w+) = detail::symb_product\((?P<a>[^,;]+), (?P<b>[^,;()]+)\);', r'\1 = symb_product(&(\g<a>), &(\g<b>));', 1, why='R-call detail::symb_product'),
-        Rule(r'NEW\(value_type,', 'NEW_NNZ(value_type,', 1, why='R-new'),
-        Rule(r'std_fill\((?P<p>[^;]+?) \+ (?P<b>\w+), (?P=p) \+ (?P<e>\w+), ', r'std_fill_vals(\g<p>, \g<b>, \g<e>, P->nnz, ', 1, why='R-std std::fill(p + b, p + e, x) on a value array'),
+        Rule(r'NEW\(value_type,', 'NEW_NNZ(value_type,', None, why='R-new'),
+        Rule(r'std_fill\((?P<p>[^;]+?) \+ (?P<b>\w+), (?P=p) \+ (?P<e>\w+), ', r'std_fill_vals(\g<p>, \g<b>, \g<e>, P->nnz, ', None, why='R-std std::fill(p + b, p + e, x) on a value array'),
         IdxRule(r'P->col|P->val', 'P->nnz', '+'), IdxRule(r'P->ptr', 'P->nrows + 1', '+'),
         IdxRule(r'A\.col|A\.val', 'nonzeros(A)', '+'), IdxRule(r'A\.ptr', 'rows(A) + 1', '+'),
     ])
@@ -1160,7 +1183,8 @@ void h_ilup(void)
 """,
     entry='h_ilup', mode='unwound', unwind='NMAX*NMAX+3', model='uf',
     variants=[{'NMAX': 3, 'ZMAX': 5, 'K': 1}, {'NMAX': 3, 'ZMAX': 5, 'K': 2}, {'NMAX': 3, 'ZMAX': 5, 'K': 0}],
-    bound_text='',
+    thorough_variants=[{'NMAX': 3, 'ZMAX': 9, 'K': 1}, {'NMAX': 3, 'ZMAX': 9, 'K': 2}, {'NMAX': 3, 'ZMAX': 9, 'K': 3}, {'NMAX': 3, 'ZMAX': 9, 'K': 0}],
+    bound_text='n <= 3, nnz <= 5 (thorough: nnz <= 9 = every 3 x 3 pattern), rows strictly ascending with a stored diagonal, k = 0, 1, 2 (thorough: 3); values uninterpreted (measured 1-15 s)',
     assumptions=A_RELAX + A_UF + A_UF16 + [
         'A-sorted: the rows of A are sorted by column without duplicates (the values are merged into the sorted product rows)',
         'A-diag: every row of A has a stored diagonal entry (property quantifier "non-zero diagonal"): the pattern of A is then contained in the pattern of A^(k+1)',
@@ -1173,7 +1197,242 @@ void h_ilup(void)
 ilup_ctor.unwindset = [(r'for\(ptrdiff_t i = 0;', 'NMAX+1'), (r'for\(ptrdiff_t ja = ', 'NMAX+1'), (r'while\(jp < ep', 'NMAX+1'), (r'for\(int k = 1;', 'K+1'), (r'< NMAX;', 'NMAX+1'), (r'< 4;', '5')]
 
 
-UNITS = [iluk_ctor, iluk_row_step, iluk_row_values, ilup_symb, ilup_ctor]
+# ============================================================================ relaxation::ilut : sparse_vector::move_to (dual threshold dropping)
+ILUT = 'amgcl/relaxation/ilut.hpp'
+FUNCTOR1 = r'bool operator\(\)\(const nonzero &v\) const\s*(?=\{)'                        # higher_than (first), L_first (second)
+FUNCTOR2 = r'bool operator\(\)\(const nonzero &a, const nonzero &b\) const\s*(?=\{)'      # by_abs_val (first), by_col (second)
+MOVE_RULES = member_rules(['nz', 'idx', 'dia']) + [
+    Rule(r'^\s*typedef std_vector<nonzero>::iterator ptr;\n', '', None, why='R-tmpl: iterator of std::vector<nonzero> = pointer to its cells (typedef in the template)'),
+    Rule(r'(self->nz)\.begin\(\)', r'((ptr)0)', None, why='R-iter begin() of the member vector: position 0 (iterators of std::vector are positions; arithmetic on them is integer arithmetic)'),
+    Rule(r'(self->nz)\.end\(\)', r'((ptr)\1.n)', None, why='R-iter end() of the member vector: position size()'),
+    Rule(r'\b(\w+)->(col|val)\b', r'self->nz.d[IDX(\1, self->nz.n, "nz")].\2', None, why='R-iter it->member: the cell of the member vector at that position (with the logical-bounds obligation)'),
+    Rule(r'(self->nz)\.clear\(\);', r'\1.n = 0;', None, why='R-vec-member clear()'),
+    Rule(r'std_partition\((?P<b>\w+), (?P<e>\w+), (?P<f>\w+)\((?P<a>[^()]*)\)\)', r'std_partition_\g<f>(self->nz.d, \g<b>, \g<e>, mk_\g<f>(\g<a>))', None, why='R-std std::partition with a functor object'),
+    Rule(r'std_nth_element\((?P<b>\w+), (?P<n>\w+), (?P<e>\w+), (?P<f>\w+)\((?P<a>[^()]*)\)\)', r'std_nth_element_\g<f>(self->nz.d, \g<b>, \g<n>, \g<e>, mk_\g<f>(\g<a>))', None, why='R-std std::nth_element with a functor object'),
+    Rule(r'std_sort\((?P<b>\w+), (?P<e>\w+), (?P<f>\w+)\(\)\)', r'std_sort_\g<f>(self->nz.d, \g<b>, \g<e>)', None, why='R-std std::sort with a functor object'),
+    RangeFor(['nonzero'], None),
+    Rule(r'(self->idx)\[', r'\1.d[', None, why='R-vec-member v[k] -> v.d[k]'), IdxRule(r'self->idx\.d', 'self->idx.n', None),
+    IdxRule(r'(L|U)\.(?:col|val)', r'\1.nnz', None), IdxRule(r'D', 'D_n', None),
+]
+ILUT_CUTS = {
+    'higher_than': Cut(ILUT, FUNCTOR1, nth=0, rules=member_rules(['tol', 'dia'])),
+    'L_first': Cut(ILUT, FUNCTOR1, nth=1, rules=member_rules(['dia'])),
+    'by_abs_val': Cut(ILUT, FUNCTOR2, nth=0, rules=member_rules(['dia'])),
+    'by_col': Cut(ILUT, FUNCTOR2, nth=1),
+    'body': Cut(ILUT, r'void move_to\(\s*int lp, int up, scalar_type tol,\s*ptrdiff_t &Lhead, build_matrix &L,\s*ptrdiff_t &Uhead, build_matrix &U,\s*backend::numa_vector<value_type> &D\s*\)\s*(?=\{)',
+                rules=MOVE_RULES),
+}
+
+ILUT_C = r"""
+#define CAP_ROW (NMAX + 1)
+/* ghost recording through the value-model macro: which values were inverted, how often */
+static int g_inv_calls; static V g_inv_arg[2];
+static inline V rec_inverse(V a) { if (g_inv_calls < 2) g_inv_arg[g_inv_calls] = a; g_inv_calls++; return __CPROVER_uninterpreted_inverse(a); }
+#undef math_inverse
+#define math_inverse(a) rec_inverse((V)(a))
+#undef math_norm
+/* A-norm: math::norm maps a value to a TOTALLY ORDERED scalar; here an uninterpreted function into {0..7} compared as integers */
+typedef int scalar_type;
+#define math_norm(a) ((int)(__CPROVER_uninterpreted_norm((V)(a)) & 7))
+/* data members of ilut::sparse_vector::nonzero and of sparse_vector used by move_to (declaration order; the queue q is not touched) */
+typedef struct { ptrdiff_t col; value_type val; } nonzero;
+typedef struct { size_t n; nonzero d[CAP_ROW]; } vec_nz;
+typedef struct { size_t n; ptrdiff_t d[CAP_ROW]; } vec_idx;
+typedef struct { vec_nz nz; vec_idx idx; ptrdiff_t dia; } sparse_vector;
+typedef ptrdiff_t ptr;        /* std::vector<nonzero>::iterator: a position in the member vector nz */
+typedef crs build_matrix;
+/* the functor objects (data members; their constructors copy the arguments) */
+typedef struct { scalar_type tol; ptrdiff_t dia; } higher_than;
+typedef struct { ptrdiff_t dia; } L_first;
+typedef struct { ptrdiff_t dia; } by_abs_val;
+static higher_than mk_higher_than(scalar_type tol, ptrdiff_t dia) { higher_than f; f.tol = tol; f.dia = dia; return f; }
+static L_first mk_L_first(ptrdiff_t dia) { L_first f; f.dia = dia; return f; }
+static by_abs_val mk_by_abs_val(ptrdiff_t dia) { by_abs_val f; f.dia = dia; return f; }
+#define v (*v_p)
+static _Bool call_higher_than(const higher_than *self, const nonzero *v_p)
+{
+/*@CUT:higher_than@*/
+}
+static _Bool call_L_first(const L_first *self, const nonzero *v_p)
+{
+/*@CUT:L_first@*/
+}
+#undef v
+#define a (*a_p)
+#define b (*b_p)
+static _Bool call_by_abs_val(const by_abs_val *self, const nonzero *a_p, const nonzero *b_p)
+{
+/*@CUT:by_abs_val@*/
+}
+static _Bool call_by_col(const nonzero *a_p, const nonzero *b_p)
+{
+/*@CUT:by_col@*/
+}
+#undef a
+#undef b
+/* the algorithms work on positions [b, e) of the cell array d; a range outside [0, CAP_ROW) is a bound artefact / reported by the callers' obligations */
+static _Bool rng_ok(ptr b, ptr e)
+{
+#if defined(CXC_CBMC) && !defined(CXC_CANARY)
+  __CPROVER_assert(0 <= b && b <= e && e <= (ptr)CAP_ROW, "safety.idx. iterator range handed to a standard algorithm lies inside the vector");
+#endif
+  return 0 <= b && b <= e && e <= (ptr)CAP_ROW;
+}
+/* std::partition (A-std): every element satisfying the predicate before every element that does not; returns the boundary (one valid arrangement: stable) */
+#define DEF_PARTITION(F) static ptr std_partition_##F(nonzero *d, ptr b, ptr e, F f) \
+{ if (!rng_ok(b, e)) return b; \
+  ptr m = b; \
+  for (ptr c = 0; c < (ptr)CAP_ROW; ++c) if (c >= b && c < e) { \
+    if (call_##F(&f, &d[c])) { const nonzero t = d[c]; for (ptr r = (ptr)CAP_ROW - 1; r > 0; --r) if (r <= c && r > m) d[r] = d[r - 1]; d[m] = t; ++m; } } \
+  return m; }
+DEF_PARTITION(higher_than)
+DEF_PARTITION(L_first)
+/* std::nth_element (A-std): afterwards no element of [b, nth) is ordered after an element of [nth, e) (one valid arrangement: the range sorted by comp) */
+static void std_nth_element_by_abs_val(nonzero *d, ptr b, ptr nth, ptr e, by_abs_val f)
+{
+  (void)nth;
+  if (!rng_ok(b, e)) return;
+  for (ptr i = 1; i < (ptr)CAP_ROW; ++i) if (i > b && i < e) {
+    const nonzero t = d[i]; ptr j = i;
+    for (ptr s = 0; s < (ptr)CAP_ROW; ++s) if (j > b && call_by_abs_val(&f, &t, &d[j - 1])) { d[j] = d[j - 1]; --j; }
+    d[j] = t;
+  }
+}
+/* std::sort (A-std) */
+static void std_sort_by_col(nonzero *d, ptr b, ptr e)
+{
+  if (!rng_ok(b, e)) return;
+  for (ptr i = 1; i < (ptr)CAP_ROW; ++i) if (i > b && i < e) {
+    const nonzero t = d[i]; ptr j = i;
+    for (ptr s = 0; s < (ptr)CAP_ROW; ++s) if (j > b && call_by_col(&t, &d[j - 1])) { d[j] = d[j - 1]; --j; }
+    d[j] = t;
+  }
+}
+static void f_move_to(sparse_vector *self, int lp, int up, scalar_type tol, ptrdiff_t *Lhead_p, crs *L_p, ptrdiff_t *Uhead_p, crs *U_p, V *D, size_t D_n)
+{
+#define Lhead (*Lhead_p)
+#define Uhead (*Uhead_p)
+#define L (*L_p)
+#define U (*U_p)
+/*@CUT:body@*/
+#undef Lhead
+#undef Uhead
+#undef L
+#undef U
+}
+"""
+
+ILUT_HARNESS = r"""
+unsigned char nondet_uchar(void);
+/* witness: the work vector (columns, norms of the values), the budgets, the tolerance */
+size_t w_n, w_cnt; ptrdiff_t w_dia; int w_lp, w_up, w_tol; ptrdiff_t w_col[CAP_ROW]; int w_norm[CAP_ROW];
+/* contract (enforced by the harness):
+ *   requires  the work vector holds cnt <= n entries with pairwise distinct columns in [0, n), the diagonal `dia` among them; idx[c] = position of column c or -1;
+ *             0 <= lp, up; the output matrices have room for lp more L entries and up more U entries (the constructor reserves p*l_i + p*u_i per row)
+ *   ensures   documentation of ILUT(p, tau): of the entries LEFT of the diagonal whose norm exceeds tol the min(lp, .) largest are appended to L, of those RIGHT of the
+ *             diagonal the min(up, .) largest are appended to U -- in addition to the diagonal, which goes to D inverted --, each with its value, columns ascending;
+ *             the work vector is left empty with idx == -1 everywhere                                                                      */
+void h_move_to(void)
+{
+  size_t n; REQUIRES(n >= 1 && n <= NMAX);
+  sparse_vector w; nonzero e0[CAP_ROW];
+  w.nz.n = nondet_uchar() & 7; REQUIRES(w.nz.n >= 1 && w.nz.n <= n);
+  w.dia = nondet_uchar() & 7; REQUIRES((size_t)w.dia < n);
+  w.idx.n = n;
+  for (size_t c = 0; c < CAP_ROW; ++c) w.idx.d[c] = -1;
+  _Bool has_dia = 0;
+  for (size_t k = 0; k < CAP_ROW; ++k) {
+    w.nz.d[k].col = nondet_uchar() & 7; e0[k] = w.nz.d[k];
+    if (k < w.nz.n) { REQUIRES((size_t)w.nz.d[k].col < n && w.idx.d[w.nz.d[k].col] == -1); w.idx.d[w.nz.d[k].col] = (ptrdiff_t)k; if (w.nz.d[k].col == w.dia) has_dia = 1; }
+    w_col[k] = w.nz.d[k].col; w_norm[k] = math_norm(w.nz.d[k].val);
+  }
+  REQUIRES(has_dia);
+  const size_t cnt = w.nz.n; const ptrdiff_t dia = w.dia;
+  int lp = nondet_uchar() & 7, up = nondet_uchar() & 7; const scalar_type tol = nondet_uchar() & 7;
+  crs *L = crs_input(), *U = crs_input();
+  ptrdiff_t Lhead = nondet_uchar() & 3, Uhead = nondet_uchar() & 3;
+  L->nnz = (size_t)(Lhead + lp); U->nnz = (size_t)(Uhead + up);
+  REQUIRES(L->nnz < CAP_NNZ && U->nnz < CAP_NNZ);
+  const ptrdiff_t Lhead0 = Lhead, Uhead0 = Uhead;
+  col_type lc0[CAP_NNZ], uc0[CAP_NNZ]; V lv0[CAP_NNZ], uv0[CAP_NNZ];
+  for (size_t j = 0; j < CAP_NNZ; ++j) { lc0[j] = L->col[j]; uc0[j] = U->col[j]; lv0[j] = L->val[j]; uv0[j] = U->val[j]; }
+  V D[NMAX + 1], D0[NMAX + 1]; for (size_t r = 0; r < NMAX + 1; ++r) { V x; D[r] = x; D0[r] = x; }
+  w_n = n; w_cnt = cnt; w_dia = dia; w_lp = lp; w_up = up; w_tol = tol;
+
+  f_move_to(&w, lp, up, tol, &Lhead, L, &Uhead, U, D, n);
+
+  /* candidates of each side: entries of the original work vector whose norm exceeds the tolerance */
+  int candL = 0, candU = 0;
+  for (size_t k = 0; k < CAP_ROW; ++k) if (k < cnt && math_norm(e0[k].val) > tol) { if (e0[k].col < dia) candL++; if (e0[k].col > dia) candU++; }
+  const int keepL = candL < lp ? candL : lp, keepU = candU < up ? candU : up;
+  ENSURES(!g_cap_exceeded && !g_thrown, "bound artefact / no exception");
+  ENSURES(Lhead - Lhead0 == keepL, "C06 ILUT fill of L: exactly min(p*l_i, number of entries left of the diagonal above the tolerance) entries are appended to L");
+  ENSURES(Uhead - Uhead0 == keepU, "C06 ILUT fill of U: exactly min(p*u_i, number of entries right of the diagonal above the tolerance) entries are appended to U IN ADDITION to the diagonal");
+  for (int side = 0; side < 2; ++side) {
+    const crs *F = side == 0 ? L : U; const ptrdiff_t b = side == 0 ? Lhead0 : Uhead0, e = side == 0 ? Lhead : Uhead;
+    _Bool ok = e >= b && (size_t)e <= F->nnz, largest = 1;
+    for (size_t s = 0; s < CAP_NNZ; ++s) if ((ptrdiff_t)s >= b && (ptrdiff_t)s < e && ok) {
+      const ptrdiff_t c = F->col[s];
+      if (side == 0 ? !(c >= 0 && c < dia) : !(c > dia && (size_t)c < n)) ok = 0;
+      if ((ptrdiff_t)s + 1 < e && !(c < F->col[s + 1])) ok = 0;
+      /* it is an original entry above the tolerance, with its value */
+      _Bool src = 0; int nk = 0;
+      for (size_t k = 0; k < CAP_ROW; ++k) if (k < cnt && e0[k].col == c && e0[k].val == F->val[s] && math_norm(e0[k].val) > tol) { src = 1; nk = math_norm(e0[k].val); }
+      if (!src) ok = 0;
+      /* no dropped candidate of the same side is strictly larger */
+      for (size_t k = 0; k < CAP_ROW; ++k) if (k < cnt && (side == 0 ? e0[k].col < dia : e0[k].col > dia) && math_norm(e0[k].val) > tol) {
+        _Bool kept = 0;
+        for (size_t t = 0; t < CAP_NNZ; ++t) if ((ptrdiff_t)t >= b && (ptrdiff_t)t < e && F->col[t] == e0[k].col) kept = 1;
+        if (!kept && math_norm(e0[k].val) > nk) largest = 0;
+      }
+    }
+    if (side == 0) {
+      ENSURES(ok, "ILUT row of L: strictly left of the diagonal, columns strictly ascending, every entry is an entry of the work vector above the tolerance with its value");
+      ENSURES(!ok || largest, "C06 ILUT dropping in L: no dropped entry above the tolerance is strictly larger in norm than a kept one");
+    } else {
+      ENSURES(ok, "ILUT row of U: strictly right of the diagonal, in range, columns strictly ascending, every entry is an entry of the work vector above the tolerance with its value");
+      ENSURES(!ok || largest, "C06 ILUT dropping in U: no dropped entry above the tolerance is strictly larger in norm than a kept one");
+    }
+  }
+  V dval; for (size_t k = 0; k < CAP_ROW; ++k) if (k < cnt && e0[k].col == dia) dval = e0[k].val;
+  ENSURES(g_inv_calls == 1 && g_inv_arg[0] == dval && D[dia] == __CPROVER_uninterpreted_inverse(dval), "ILUT: D[dia] == inverse(value of the diagonal entry), inverted exactly once (the diagonal is always kept)");
+  _Bool frame = 1;
+  for (size_t j = 0; j < CAP_NNZ; ++j) { if ((ptrdiff_t)j < Lhead0 && (L->col[j] != lc0[j] || L->val[j] != lv0[j])) frame = 0; if ((ptrdiff_t)j < Uhead0 && (U->col[j] != uc0[j] || U->val[j] != uv0[j])) frame = 0; }
+  for (size_t r = 0; r < NMAX + 1; ++r) if ((ptrdiff_t)r != dia && D[r] != D0[r]) frame = 0;
+  ENSURES(frame, "frame: the rows of L and U written before and every D[p], p != dia, are unchanged");
+  _Bool clean = w.nz.n == 0 && w.idx.n == n;
+  for (size_t c = 0; c < NMAX; ++c) if (c < n && w.idx.d[c] != -1) clean = 0;
+  ENSURES(clean, "ILUT: the work vector is left empty, idx == -1 everywhere");
+  CANARY("harness.end");
+}
+"""
+
+ilut_move_to = Unit(
+    name='ilut_move_to', props=['C06', 'C10'],
+    functions=['relaxation::ilut<Backend>::sparse_vector::move_to(int, int, scalar_type, ptrdiff_t&, build_matrix&, ptrdiff_t&, build_matrix&, numa_vector&)',
+               'sparse_vector::{higher_than, L_first, by_abs_val, by_col}::operator()'],
+    desc='dual threshold dropping of ILUT(p, tau) for one row: of the work-vector entries left of the diagonal whose norm exceeds the tolerance exactly min(lp, .) are appended to L, of those '
+         'right of the diagonal exactly min(up, .) are appended to U IN ADDITION to the diagonal (documentation: "the p*u_i largest elements in the U part ... in addition to the diagonal '
+         'element, which is always kept"); no dropped candidate is strictly larger in norm than a kept one; kept entries carry their values, columns strictly ascending, strictly lower / '
+         'upper, in range; D[dia] = inverse(diagonal value), once; everything written before untouched; the work vector is left empty with idx == -1; writes stay inside the reserved room',
+    cuts=ILUT_CUTS,
+    template=UF16 + VEC_PRELUDE + ILUT_C + ILUT_HARNESS,
+    entry='h_move_to', mode='unwound', unwind='max(ZMAX,NMAX)+3', model='uf',
+    variants=[{'NMAX': 3, 'ZMAX': 10}], thorough_variants=[{'NMAX': 3, 'ZMAX': 10}, {'NMAX': 4, 'ZMAX': 10}],
+    bound_text='work vectors with 1 <= n <= 3 (thorough: 4, measured 107 s) entries of pairwise distinct columns incl. the diagonal, any order; budgets lp, up in 0..7, tolerance and norms in 0..7; '
+               'any room offsets; values uninterpreted',
+    assumptions=A_RELAX + A_UF + A_UF16 + [
+        'A-norm: math::norm maps a value to a totally ordered scalar (here: an uninterpreted function into {0..7}, compared as integers); tol is such a scalar',
+        'A-std-algo: std::partition / std::nth_element / std::sort are stubs that call the functor bodies cut from the repository and realise ONE arrangement allowed by the standard '
+        '(stable partition; the range fully sorted for nth_element); iterators of std::vector<nonzero> are pointers to its cells',
+        'A-room: the output matrices have room for lp more L entries and up more U entries (the constructor reserves p*l_i + p*u_i slots per row and passes lp = p*l_i, up = p*u_i)',
+        'A-diag: the work vector holds the diagonal entry (property quantifier "non-zero diagonal")'],
+    replay='iluk', timeout=300, witness=['w_n', 'w_cnt', 'w_dia', 'w_lp', 'w_up', 'w_tol', 'w_col', 'w_norm'],
+    not_decided=['the elimination loop of the ILUT constructor (which entries reach the work vector, the value of tol)', 'ties in norm: which of several equal candidates is kept', 'n beyond the bound'])
+ilut_move_to.unwindset = [(r'< CAP_ROW;', 'NMAX+2'), (r'for\(ptr a = ', 'NMAX+1'), (r'for \(size_t e_i = 0;', 'NMAX+2'), (r'< NMAX;', 'NMAX+1')]
+
+
+UNITS = [iluk_ctor, iluk_row_step, iluk_row_values, ilup_symb, ilup_ctor, ilut_move_to]
 CANDIDATE_DEFECT_UNITS = []
 for _u in UNITS + CANDIDATE_DEFECT_UNITS:
     _u.replay_asan = True
